@@ -326,9 +326,20 @@ static void t_clipperD_open(Rng& g, const Ctx& c, const PathsD& subj, const Path
   }
   // open solution: BuildPathD drops 3-point open paths with two points closer than 2 units (known finding, fixed
   // input under kf.d-api.ClipperD.open-3pt); those paths are taken out of the 64-bit side before comparing
-  Paths64 open64f;
-  for (auto& p : open64) { if (open_small3(p)) stat("open.small3_excluded_known_finding"); else open64f.push_back(p); }
-  compare("d-api.ClipperD.open", openD, open64f, c.sD, c, true, input);
+  // (BuildPathD's test is on the OutPt ring - exactly three OutPts, two of them really close -, which the returned path does
+  //  not reveal: a 3-point path built from a longer ring with repeated points is kept by both builders.  A path of that shape may
+  //  therefore be present or absent on the D side; whatever the D side returns of them is taken out on both sides.)
+  Paths64 open64f; PathsD openDf; std::vector<PathD> small3D;
+  for (auto& p : open64) {
+    if (open_small3(p)) { stat("open.small3_excluded_known_finding"); PathD q; for (auto& v : p) q.emplace_back((double)v.x / c.sD, (double)v.y / c.sD); small3D.push_back(q); }
+    else open64f.push_back(p);
+  }
+  for (auto& p : openD) {
+    bool is_small3 = false;
+    for (auto& q : small3D) if (p.size() == q.size()) { bool eq = true; for (size_t i = 0; i < p.size(); ++i) if (p[i].x != q[i].x || p[i].y != q[i].y) eq = false; if (eq) is_small3 = true; }
+    if (is_small3) stat("open.small3_kept_by_ClipperD"); else openDf.push_back(p);
+  }
+  compare("d-api.ClipperD.open", openDf, open64f, c.sD, c, true, input);
   stat("open.result_paths", (long long)open64.size());
   // the overloads without an open-solution argument, on the same objects (open subjects still loaded): they must return
   // the closed solution only, as the 64-bit overloads do
